@@ -185,7 +185,14 @@ fn careful_call(t: &Target, expect_dest: Option<u64>, text: (u64, u64), pristine
                 so.value = Some((t.call)());
             }
         }
-        _ => {}
+        X86End::Unknown { .. } | X86End::HopLimit => {
+            // unknown bytes are not a verdict: the isolated worker executes and the value decides
+            crate::worker::phase("call-undecoded");
+            match std::panic::catch_unwind(std::panic::AssertUnwindSafe(|| (t.call)())) {
+                Ok(v) => so.value = Some(v),
+                Err(_) => so.call_panic = Some(crate::worker::last_panic()),
+            }
+        }
     }
 }
 
